@@ -396,4 +396,91 @@ theorem wf_run (fl : Flavour) (ops : List Op) : ∀ s, KV.WF s.kv → KV.WF (run
 
 theorem wf_empty : KV.WF St.empty.kv := List.nodup_nil
 
+theorem KV.sumBy_erase_zero {m : KV} (hwf : KV.WF m) (f : Key → Ent → Int) (k : Key)
+    (hz : ∀ e, f k e = 0) : KV.sumBy f (KV.erase m k) = KV.sumBy f m := by
+  rw [KV.sumBy_erase hwf]
+  cases KV.get m k <;> simp [hz]
+
+/-- **AddWorkload without a marker** (the create succeeded, so all three keys were free):
+    one more recorded workload on its node, markers untouched (`DOp.plainAdd`). -/
+theorem addWorkload_plain_effect {s s' : St} (hwf : KV.WF s.kv) (w : WlRec) (a e x : String)
+    (ha : a ≠ "") (he : e ≠ "") (hname : parseWorkloadName w.name = .ok (a, e, x))
+    (h : addWorkload s w none = .ok s') (n2 : String) :
+    deployed s' a e n2 = deployed s a e n2 + (if w.node = n2 then 1 else 0) ∧
+    inProgress s' a e n2 = inProgress s a e n2 := by
+  unfold addWorkload at h
+  simp only [hname, batchCreate] at h
+  split at h
+  · cases h
+  · rename_i hfree
+    cases h
+    have hnd : ((wlData w a e).map (·.1)).Nodup := by simp [wlData]
+    have habs : ∀ k ∈ (wlData w a e).map (·.1), KV.get s.kv k = none := by
+      intro k hk
+      simp only [List.mem_map] at hk
+      obtain ⟨kv, hkv, rfl⟩ := hk
+      cases hg : KV.get s.kv kv.1 with
+      | none => rfl
+      | some x => exact absurd (List.any_eq_true.mpr ⟨kv, hkv, by simp [KV.has, hg]⟩) hfree
+    have hu : isUnder (joinParts [a, e]) [a, e, w.node, w.id] = true := isUnder_self a e w.node w.id ha he
+    constructor
+    · simp only [deployed_eq_sumBy]
+      rw [KV.sumBy_putAll_fresh hwf _ _ hnd habs]
+      simp only [wlData, deployedAt, List.map_cons, List.map_nil, List.sum_cons, List.sum_nil, hu,
+        Bool.true_and, decide_eq_true_eq]
+      omega
+    · simp only [inProgress_eq_sumBy]
+      rw [KV.sumBy_putAll_fresh hwf _ _ hnd habs]
+      simp [wlData, inProgressAt]
+
+/-- **RemoveWorkload**: one recorded workload less on its node iff its deploy key was there,
+    markers untouched (`DOp.remove`). -/
+theorem removeWorkload_effect {s s' : St} (hwf : KV.WF s.kv) (w : WlRec) (a e x : String)
+    (ha : a ≠ "") (he : e ≠ "") (hname : parseWorkloadName w.name = .ok (a, e, x))
+    (h : removeWorkload s w = .ok s') (n2 : String) :
+    deployed s' a e n2 = deployed s a e n2 -
+      (if (s.kv.has (.deploy a e w.node w.id) = true ∧ w.node = n2) then 1 else 0) ∧
+    inProgress s' a e n2 = inProgress s a e n2 := by
+  unfold removeWorkload at h
+  simp only [hname] at h
+  cases h
+  have hu : isUnder (joinParts [a, e]) [a, e, w.node, w.id] = true := isUnder_self a e w.node w.id ha he
+  have w1 := KV.wf_erase hwf (.wst a e w.node w.id)
+  have w2 := KV.wf_erase w1 (.deploy a e w.node w.id)
+  have w3 := KV.wf_erase w2 (.wl w.id)
+  constructor
+  · simp only [deployed_eq_sumBy, batchDelete, KV.eraseAll]
+    rw [KV.sumBy_erase_zero w3 _ _ (by intro e; rfl), KV.sumBy_erase_zero w2 _ _ (by intro e; rfl),
+        KV.sumBy_erase w1, KV.get_erase_ne _ (by simp), KV.sumBy_erase_zero hwf _ _ (by intro e; rfl)]
+    cases hg : KV.get s.kv (.deploy a e w.node w.id) with
+    | none => simp [KV.has, hg]
+    | some ent =>
+      simp only [deployedAt, hu, Bool.true_and, decide_eq_true_eq, KV.has, hg, Option.isSome_some, true_and]
+  · simp only [inProgress_eq_sumBy, batchDelete, KV.eraseAll]
+    rw [KV.sumBy_erase_zero w3 _ _ (by intro e; rfl), KV.sumBy_erase_zero w2 _ _ (by intro e; rfl),
+        KV.sumBy_erase_zero w1 _ _ (by intro e; rfl), KV.sumBy_erase_zero hwf _ _ (by intro e; rfl)]
+
+/-- **DeleteProcessing**: the marker's remaining count leaves the in-progress number of its node,
+    recorded workloads untouched (`DOp.finish`). -/
+theorem deleteProcessing_effect {s : St} (hwf : KV.WF s.kv) (a e n i : String)
+    (ha : a ≠ "") (he : e ≠ "") (n2 : String) :
+    inProgress (deleteProcessing s a e n i) a e n2 = inProgress s a e n2 -
+      (match KV.get s.kv (procKey a e n i) with
+       | some { val := .cnt c, .. } => if n = n2 then c else 0
+       | _ => 0) ∧
+    deployed (deleteProcessing s a e n i) a e n2 = deployed s a e n2 ∧
+    (deleteProcessing s a e n i).kv.has (procKey a e n i) = false := by
+  have hu : isUnder (joinParts [a, e]) [a, e, n, i] = true := isUnder_self a e n i ha he
+  refine ⟨?_, ?_, ?_⟩
+  · simp only [inProgress_eq_sumBy, deleteProcessing, batchDelete, KV.eraseAll]
+    rw [KV.sumBy_erase hwf]
+    cases hg : KV.get s.kv (procKey a e n i) with
+    | none => simp
+    | some ent =>
+      obtain ⟨v, x⟩ := ent
+      cases v <;> simp [procKey, inProgressAt, hu]
+  · simp only [deployed_eq_sumBy, deleteProcessing, batchDelete, KV.eraseAll]
+    exact KV.sumBy_erase_zero hwf _ _ (by intro e; rfl)
+  · simp [deleteProcessing, batchDelete, KV.eraseAll, KV.has, KV.get_erase_same]
+
 end Eru.Store
